@@ -69,9 +69,9 @@ func ownOutputOverride(p *core.Program, f *core.Func) (bool, string) {
 		x = v
 	}
 	isX := func(e ast.Expr) bool { return e != nil && core.CanonVarOf(info, body, e) == x }
-	// one loop, bounded by the type's methods
-	var loop ast.Stmt
-	var loopBody *ast.BlockStmt
+	// the scan: one loop bounded by the type's methods, or several such loops directly after one another (one pass per
+	// method looked for)
+	var loops []ast.Stmt
 	for _, q := range queries {
 		var l ast.Stmt
 		path := core.PathTo(body, q)
@@ -83,96 +83,132 @@ func ownOutputOverride(p *core.Program, f *core.Func) (bool, string) {
 				return false, "a query sits in a function literal"
 			}
 		}
-		if l == nil || (loop != nil && l != loop) {
+		if l == nil {
 			return false, "the queries are not all in one loop"
 		}
-		loop = l
-	}
-	bounded := false
-	switch l := loop.(type) {
-	case *ast.ForStmt:
-		loopBody = l.Body
-		if l.Cond != nil {
-			ast.Inspect(l.Cond, func(n ast.Node) bool {
-				if c, ok := n.(*ast.CallExpr); ok && core.CalleeName(info, c) == "(*go/types.Named).NumMethods" && isX(recvOf(c)) {
-					if b, isCmp := ast.Unparen(l.Cond).(*ast.BinaryExpr); isCmp && b.Op == token.LSS && ast.Unparen(b.Y) == ast.Expr(c) {
-						bounded = true
-					}
-				}
-				return true
-			})
+		known := false
+		for _, have := range loops {
+			if have == l {
+				known = true
+			}
 		}
-	case *ast.RangeStmt:
-		loopBody = l.Body
-		if c, ok := ast.Unparen(l.X).(*ast.CallExpr); ok && isX(recvOf(c)) {
-			switch core.CalleeName(info, c) {
-			case "(*go/types.Named).Methods":
-				bounded = true
-			case "(*go/types.Named).NumMethods": // range x.NumMethods()
-				bounded = true
+		if !known {
+			loops = append(loops, l)
+		}
+	}
+	sort.Slice(loops, func(i, j int) bool { return loops[i].Pos() < loops[j].Pos() })
+	if len(loops) > 1 {
+		// adjacent statements of one list
+		var list []ast.Stmt
+		if pth := core.PathTo(body, loops[0]); len(pth) >= 2 {
+			switch par := pth[len(pth)-2].(type) {
+			case *ast.BlockStmt:
+				list = par.List
+			case *ast.CaseClause:
+				list = par.Body
+			}
+		}
+		at := -1
+		for i, st := range list {
+			if st == loops[0] {
+				at = i
+			}
+		}
+		for k, l := range loops {
+			if at < 0 || at+k >= len(list) || list[at+k] != l {
+				return false, "the queries are not all in one loop"
 			}
 		}
 	}
-	if !bounded {
-		return false, "the loop is not bounded by the type's own methods"
-	}
-	// the loop body: getters only, outputs = fields of one local record
-	for _, c := range core.Calls(loopBody, true) {
-		name := core.CalleeName(info, c)
-		if tv, isConv := info.Types[c.Fun]; isConv && tv.IsType() {
-			continue
-		}
-		if !strings.Contains(name, "go/types.") {
-			return false, "the scan calls " + name
-		}
-	}
+	loop := loops[len(loops)-1]
 	var rec *types.Var
 	outputs := map[*types.Var]bool{}
 	why := ""
-	ast.Inspect(loopBody, func(n ast.Node) bool {
-		var lhs []ast.Expr
-		switch s := n.(type) {
-		case *ast.AssignStmt:
-			lhs = s.Lhs
-		case *ast.IncDecStmt:
-			lhs = []ast.Expr{s.X}
-		case *ast.FuncLit, *ast.GoStmt, *ast.DeferStmt, *ast.SendStmt:
-			why = "the scan does more than assign"
-		case *ast.ReturnStmt:
-			why = "the scan decides a return: what it finds leaves the function directly"
-		case *ast.BranchStmt:
-			if s.Tok != token.CONTINUE || s.Label != nil {
-				why = "the scan leaves its loop depending on what it finds"
+	for _, lp := range loops {
+		var loopBody *ast.BlockStmt
+		bounded := false
+		switch l := lp.(type) {
+		case *ast.ForStmt:
+			loopBody = l.Body
+			if l.Cond != nil {
+				ast.Inspect(l.Cond, func(n ast.Node) bool {
+					if c, ok := n.(*ast.CallExpr); ok && core.CalleeName(info, c) == "(*go/types.Named).NumMethods" && isX(recvOf(c)) {
+						if b, isCmp := ast.Unparen(l.Cond).(*ast.BinaryExpr); isCmp && b.Op == token.LSS && ast.Unparen(b.Y) == ast.Expr(c) {
+							bounded = true
+						}
+					}
+					return true
+				})
+			}
+		case *ast.RangeStmt:
+			loopBody = l.Body
+			if c, ok := ast.Unparen(l.X).(*ast.CallExpr); ok && isX(recvOf(c)) {
+				switch core.CalleeName(info, c) {
+				case "(*go/types.Named).Methods":
+					bounded = true
+				case "(*go/types.Named).NumMethods": // range x.NumMethods()
+					bounded = true
+				}
 			}
 		}
-		for _, l := range lhs {
-			l = ast.Unparen(l)
-			if id, ok := l.(*ast.Ident); ok {
-				if id.Name == "_" {
-					continue
-				}
-				if v, _ := info.ObjectOf(id).(*types.Var); v != nil && core.DeclaredIn(info, loopBody, v) {
-					continue
-				}
-				why = "the scan writes the variable " + id.Name + " declared outside it"
-				continue
-			}
-			sel, ok := l.(*ast.SelectorExpr)
-			fld := core.FieldOf(info, l)
-			if !ok || fld == nil {
-				why = "the scan writes " + core.ExprStr(l)
-				continue
-			}
-			b := classOf(sel.X)
-			if b == nil || (rec != nil && b != rec) {
-				why = "the scan writes " + core.ExprStr(l) + ", not a field of one local record"
-				continue
-			}
-			rec = b
-			outputs[fld] = true
+		if !bounded {
+			return false, "the loop is not bounded by the type's own methods"
 		}
-		return true
-	})
+		// the loop body: getters only, outputs = fields of one local record
+		for _, c := range core.Calls(loopBody, true) {
+			name := core.CalleeName(info, c)
+			if tv, isConv := info.Types[c.Fun]; isConv && tv.IsType() {
+				continue
+			}
+			if !strings.Contains(name, "go/types.") {
+				return false, "the scan calls " + name
+			}
+		}
+		ast.Inspect(loopBody, func(n ast.Node) bool {
+			var lhs []ast.Expr
+			switch s := n.(type) {
+			case *ast.AssignStmt:
+				lhs = s.Lhs
+			case *ast.IncDecStmt:
+				lhs = []ast.Expr{s.X}
+			case *ast.FuncLit, *ast.GoStmt, *ast.DeferStmt, *ast.SendStmt:
+				why = "the scan does more than assign"
+			case *ast.ReturnStmt:
+				why = "the scan decides a return: what it finds leaves the function directly"
+			case *ast.BranchStmt:
+				if s.Tok != token.CONTINUE || s.Label != nil {
+					why = "the scan leaves its loop depending on what it finds"
+				}
+			}
+			for _, l := range lhs {
+				l = ast.Unparen(l)
+				if id, ok := l.(*ast.Ident); ok {
+					if id.Name == "_" {
+						continue
+					}
+					if v, _ := info.ObjectOf(id).(*types.Var); v != nil && core.DeclaredIn(info, loopBody, v) {
+						continue
+					}
+					why = "the scan writes the variable " + id.Name + " declared outside it"
+					continue
+				}
+				sel, ok := l.(*ast.SelectorExpr)
+				fld := core.FieldOf(info, l)
+				if !ok || fld == nil {
+					why = "the scan writes " + core.ExprStr(l)
+					continue
+				}
+				b := classOf(sel.X)
+				if b == nil || (rec != nil && b != rec) {
+					why = "the scan writes " + core.ExprStr(l) + ", not a field of one local record"
+					continue
+				}
+				rec = b
+				outputs[fld] = true
+			}
+			return true
+		})
+	}
 	if why != "" {
 		return false, why
 	}
@@ -338,12 +374,14 @@ func ownOutputOverride(p *core.Program, f *core.Func) (bool, string) {
 		return false, "the end of the scan loop is not in the control-flow graph"
 	}
 	loopNodes := map[ast.Node]bool{}
-	ast.Inspect(loop, func(n ast.Node) bool {
-		if n != nil {
-			loopNodes[n] = true
-		}
-		return true
-	})
+	for _, lp := range loops {
+		ast.Inspect(lp, func(n ast.Node) bool {
+			if n != nil {
+				loopNodes[n] = true
+			}
+			return true
+		})
+	}
 	inLoop := func(n ast.Node) bool { return loopNodes[n] }
 	mentionsOutputOrQuery := func(e ast.Expr) bool {
 		bad := false
